@@ -19,7 +19,7 @@ RULE = ("(a) every fault site (C12 matrix + list/tuple/number given to String an
         "lists nested to 6; (c) CSV faults: empty file, header only, ragged rows, non-numeric cells, missing column, duplicate "
         "headers, quoted newlines, NUL bytes, non-UTF-8 bytes, 1 MB field, nan/inf/1e400 cells; (d) open() raising at the n-th call; "
         "(e) mismatched shapes / weights / empty lists; distinct by (class, fault/edit kind, command, outcome class)")
-REQUIRED_COUNTERS = ["boundary_outcomes_recorded", "mpilot_errors_seen", "cli_runs_checked", "error_messages_rendered", "io_faults_injected", "csv_faults_run", "text_corruptions_run", "cli_subprocess_runs"]
+REQUIRED_COUNTERS = ["boundary_outcomes_recorded", "mpilot_errors_seen", "cli_runs_checked", "error_messages_rendered", "io_faults_injected", "csv_faults_run", "text_corruptions_run", "cli_subprocess_runs", "netcdf_faults_run"]
 ASSUMPTIONS = ["SyntaxError vs MPilotError for malformed text: either is allowed", "command files that are not valid UTF-8, KeyboardInterrupt and MemoryError are out of scope",
                "the CLI's behaviour for SyntaxError is not specified by the property and not judged"]
 
@@ -29,6 +29,8 @@ EXTRA_WRONG = {
 }
 CSV_FAULTS = ["empty", "header-only", "ragged-short", "ragged-long", "non-numeric", "missing-column", "dup-headers", "quoted-newline", "nul-byte",
               "non-utf8", "huge-field", "nan", "inf", "1e400", "blank-lines", "bom", "only-newlines", "spaces"]
+NC_FAULTS = ["no-such-variable", "not-a-netcdf-file", "empty-file", "template-variable-missing", "template-without-dimension-variables", "result-named-like-dimension",
+             "negative-as-positive", "out-of-range-as-fuzzy", "missing-value-not-a-number", "scalar-variable", "string-variable", "duplicate-output-names", "unwritable-output"]
 EDIT_CHARS = ["\x00", "\ufeff", '"', "'", "\\", "(", ")", "[", "]", ",", ":", "=", "#", "\n", "\r", "\t", " ", "1", ".", "-", "e", "é", "\\x", "\\u12", "\\N{", "\\"]
 
 
@@ -91,6 +93,10 @@ def cases(ctx):
     for i in range(ctx.n(500, 30000)):
         m = models.gen_model(rng, n_ops=rng.randint(1, 4), sinks=rng.random() < 0.4)
         yield {"kind": "csv", "model": m, "fault": CSV_FAULTS[i % len(CSV_FAULTS)], "rseed": rng.randrange(10 ** 9), "cli": i % 3 == 0}
+    # NetCDF content faults under valid NetCDF models
+    for i in range(ctx.n(120, 6000)):
+        m = models.gen_model(rng, n_ops=rng.randint(1, 4), sinks=True, libs="nc")
+        yield {"kind": "nc", "model": m, "fault": NC_FAULTS[i % len(NC_FAULTS)], "rseed": rng.randrange(10 ** 9)}
     # (d) I/O faults
     for i in range(ctx.n(300, 15000)):
         m = models.gen_model(rng, n_ops=rng.randint(1, 4), sinks=True)
@@ -237,7 +243,7 @@ def _cli(ctx, text, d, tag, detail, expect_error=True, api_exc=None, api_dir=Non
 
 def run_case(ctx, case):
     k = case["kind"]
-    return {"fault": run_fault, "text": run_text, "csv": run_csv, "io": run_io, "runtime": run_runtime}[k](ctx, case)
+    return {"fault": run_fault, "text": run_text, "csv": run_csv, "io": run_io, "runtime": run_runtime, "nc": run_nc}[k](ctx, case)
 
 
 def run_fault(ctx, case):
@@ -367,6 +373,72 @@ def run_csv(ctx, case):
         d2 = ctx.scratch()
         _write_bad_csv(random.Random(case["rseed"]), m["table"], d2, case["fault"])
         _cli(ctx, text, d2, tag, detail, api_exc=b.exc, api_dir=d)
+
+
+def run_nc(ctx, case):
+    import copy
+    import numpy
+    from netCDF4 import Dataset
+    m = copy.deepcopy(case["model"])
+    rng = random.Random(case["rseed"])
+    f = case["fault"]
+    d = ctx.scratch()
+    models.write_table(m["table"], d)
+    path = os.path.join(d, m["table"]["file"])
+    reads = [c for c in m["commands"] if c["cmd"] == "EEMSRead"]
+    writes = [c for c in m["commands"] if c["cmd"] == "EEMSWrite"]
+    if f == "no-such-variable":
+        reads[0]["args"]["InFieldName"] = "NoSuchVar"
+    elif f == "not-a-netcdf-file":
+        open(path, "w").write("this is not a NetCDF dataset\n")
+    elif f == "empty-file":
+        open(path, "w").close()
+    elif f == "template-variable-missing" and writes:
+        writes[0]["args"]["DimensionFieldName"] = "NoSuchVar"
+    elif f == "template-without-dimension-variables" and writes:
+        tp = os.path.join(d, "bare.nc")
+        with Dataset(tp, "w") as ds:
+            shape = m["table"].get("shape") or [m["table"]["nrows"]]
+            for i_, n_ in enumerate(shape):
+                ds.createDimension("d%d" % i_, n_)
+            ds.createVariable("v", "f8", tuple("d%d" % i_ for i_ in range(len(shape))))
+        writes[0]["args"].update({"DimensionFileName": "bare.nc", "DimensionFieldName": "v"})
+    elif f == "result-named-like-dimension" and writes:
+        tgt = writes[0]["args"]["OutFieldNames"][0]
+        for c in m["commands"]:
+            if c["result"] == tgt:
+                c["result"] = "d0"
+            for k, v in c["args"].items():
+                if v == tgt:
+                    c["args"][k] = "d0"
+                elif isinstance(v, list):
+                    c["args"][k] = ["d0" if x == tgt else x for x in v]
+    elif f == "negative-as-positive":
+        reads[0]["args"]["DataType"] = rng.choice(["Positive Float", "Positive Integer"])
+    elif f == "out-of-range-as-fuzzy":
+        reads[0]["args"]["DataType"] = "Fuzzy"
+    elif f == "missing-value-not-a-number":
+        reads[0]["args"]["MissingValue"] = "abc"
+        reads[0].setdefault("raw_ast", {})["MissingValue"] = {"t": "ustr", "v": "abc", "cls": "word"}
+    elif f in ("scalar-variable", "string-variable"):
+        with Dataset(path, "a") as ds:
+            if f == "scalar-variable":
+                v = ds.createVariable("Odd", "f8", ())
+                v[...] = 3.5
+            else:
+                ds.createDimension("nchar", 4)
+                v = ds.createVariable("Odd", "S1", ("nchar",))
+                v[:] = numpy.array(list("abcd"), dtype="S1")
+        reads[0]["args"]["InFieldName"] = "Odd"
+    elif f == "duplicate-output-names" and writes:
+        writes[0]["args"]["OutFieldNames"] = writes[0]["args"]["OutFieldNames"] * 2
+    elif f == "unwritable-output" and writes:
+        os.makedirs(os.path.join(d, "out.nc"))       # the output path is a directory
+    text, _ = models.to_text(m)
+    ctx.count("netcdf_faults_run")
+    b = _Boundary(text, d, libs=arr.NC_LIBS)
+    ctx.feature(("nc", f, type(b.exc).__name__ if b.exc else "ok"))
+    _classify(ctx, b, "nc:%s" % f, {"nc_fault": f, "text": text[:700]})
 
 
 def run_io(ctx, case):
